@@ -31,11 +31,13 @@ CONSTANTS MaxFuncs,    \* function items placed before the case function
           StmtKinds,   \* statement kinds allowed in the case function
           GapSet,      \* name of the set of gaps used between items (see Gaps)
           CaseGapSet,  \* name of the set of gaps used above the case function's header
+          RelBases,    \* subset of {"same", "unset", "sibling", "unrelated"}: cl.Config.RelativeBase vs the file's directory
           FileKind     \* "xgo": ordinary source file; "gox": normal class file (line 1 is the var block,
                        \*   every func -- items, case function, helpers -- is a method of the class)
 
 AllStmtKinds == {"call", "cmd", "assign", "mcall1", "mcall2", "if", "for", "switch", "defer",
-                 "var", "lamexpr", "lamblk", "funclit", "fwd"}
+                 "var", "lamexpr", "lamblk", "funclit", "fwd",
+                 "swtag", "swbare", "swbare2", "selsend"}   \* probe calls inside case / comm clauses
 
 \* a gap is a sequence over {"b", "c"}: blank line, comment line
 GapsNamed(nm) == CASE nm = "g1" -> { <<>> }
@@ -52,8 +54,29 @@ VARIABLES text,     \* sequence of line descriptors [k, id, ref, ss]
           nh,       \* number of forward-declared helpers used so far
           ns,       \* statement items placed in the case function
           tail,     \* line on which the helper declarations start (0 until known)
+          relbase,  \* how cl.Config.RelativeBase relates to the directory of the file (constant per case)
           pc        \* "funcs" | "stmts" | "done"
-vars == <<text, ents, funcs, nh, ns, tail, pc>>
+vars == <<text, ents, funcs, nh, ns, tail, relbase, pc>>
+
+\* ---------------------------------------------------------------- file names (cl/stmt.go fileLineFile)
+\* directories are sequences of path components; the file lives in FileDir
+FileDir == <<"x", "proj-tools">>
+BaseDir(rb) == CASE rb = "same" -> FileDir
+                 [] rb = "sibling" -> <<"x", "proj">>          \* shares a NAME prefix with FileDir, not a path prefix
+                 [] rb = "unrelated" -> <<"y", "other">>
+RECURSIVE CommonLen(_, _, _)
+CommonLen(a, b, n) == IF n < Len(a) /\ n < Len(b) /\ a[n + 1] = b[n + 1] THEN CommonLen(a, b, n + 1) ELSE n
+\* filepath.Rel on component sequences: one ".." per remaining component of base, then the rest of dir
+Rel(base, dir) == LET c == CommonLen(base, dir, 0) IN
+                  [j \in 1..(Len(base) - c) |-> ".."] \o SubSeq(dir, c + 1, Len(dir))
+\* filepath.Join(base, rel) cleaned: ".." pops a component
+RECURSIVE Clean(_, _)
+Clean(stack, rest) == IF rest = <<>> THEN stack
+                      ELSE IF rest[1] = ".." THEN Clean(SubSeq(stack, 1, Len(stack) - 1), Tail(rest))
+                      ELSE Clean(Append(stack, rest[1]), Tail(rest))
+\* the directory part of the file name every //line directive (and so runtime.Caller) must carry
+ExpDir(rb) == IF rb = "unset" THEN [abs |-> TRUE, comps |-> FileDir]
+              ELSE [abs |-> FALSE, comps |-> Rel(BaseDir(rb), FileDir)]
 
 Line == Len(text) + 1                         \* number of the next line to be written
 NId  == Len(ents) + 1                         \* next probe id
@@ -85,8 +108,20 @@ StmtLines(k, s, id, h) ==
     [] k = "lamblk"  -> << L("lamhdr", 0, 0, s), L("ret", id, 0, s + 1), L("lamend", 0, 0, s) >>
     [] k = "funclit" -> << L("flithdr", 0, id, s), L("call", id, 0, s + 1), L("close", 0, 0, s), L("callg", 0, id, s + 3) >>
     [] k = "fwd"     -> << L("fwd", id, h, s) >>
+    \* a case / comm clause is a statement of its own: a probe in its expression belongs to the clause's line
+    [] k = "swtag"   -> << L("swhdr", id, 0, s), L("casew", id + 1, 0, s + 1), L("call", id + 2, 0, s + 2),
+                           L("call", id + 3, 0, s + 3), L("close", 0, 0, s) >>
+    [] k = "swbare"  -> << L("swbarehdr", 0, 0, s), L("casegt", id, 0, s + 1), L("call", id + 1, 0, s + 2),
+                           L("call", id + 2, 0, s + 3), L("close", 0, 0, s) >>
+    [] k = "swbare2" -> << L("swbarehdr", 0, 0, s), L("casegt1", id, 0, s + 1), L("call", id + 1, 0, s + 2),
+                           L("casegt", id + 2, 0, s + 3), L("call", id + 3, 0, s + 4), L("call", id + 4, 0, s + 5),
+                           L("close", 0, 0, s) >>
+    [] k = "selsend" -> << L("mkchan", 0, id, s), L("selhdr", 0, 0, s + 1), L("selcase", id, id, s + 2),
+                           L("call", id + 1, 0, s + 3), L("call", id + 2, 0, s + 4), L("close", 0, 0, s + 1) >>
 
-E(k, line, tok, ndoc, h, c) == [kind |-> k, line |-> line, tok |-> tok, ndoc |-> ndoc, h |-> h, ctx |-> c]
+\* opt = TRUE: the probe may legitimately not be reached by the driver (body of a clause that is not taken)
+E(k, line, tok, ndoc, h, c) == [kind |-> k, line |-> line, tok |-> tok, ndoc |-> ndoc, h |-> h, ctx |-> c, opt |-> FALSE]
+EO(k, line, c) == [kind |-> k, line |-> line, tok |-> line, ndoc |-> 0, h |-> 0, ctx |-> c, opt |-> TRUE]
 
 \* c = context ("func" | "method" | "case"), nd = doc lines above the item
 StmtEnts(k, s, nd, h, c) ==
@@ -99,9 +134,18 @@ StmtEnts(k, s, nd, h, c) ==
     [] k = "lamblk"  -> << E(k, s + 1, s + 1, 0, 0, c) >>      \* the return statement of the lambda body
     [] k = "funclit" -> << E(k, s + 1, s + 1, 0, 0, c) >>
     [] k = "fwd"     -> << E(k, s, s, 0, h, c) >>
+    [] k = "swtag"   -> << E("swhdr", s, s, 0, 0, c), E("caseexpr", s + 1, s + 1, 0, 0, c),
+                           E("casebody", s + 2, s + 2, 0, 0, c), E("casebody", s + 3, s + 3, 0, 0, c) >>
+    [] k = "swbare"  -> << E("caseexpr", s + 1, s + 1, 0, 0, c),
+                           E("casebody", s + 2, s + 2, 0, 0, c), E("casebody", s + 3, s + 3, 0, 0, c) >>
+    [] k = "swbare2" -> << E("caseexpr", s + 1, s + 1, 0, 0, c), EO("casebody", s + 2, c), E("caseexpr", s + 3, s + 3, 0, 0, c),
+                           E("casebody", s + 4, s + 4, 0, 0, c), E("casebody", s + 5, s + 5, 0, 0, c) >>
+    [] k = "selsend" -> << E("commexpr", s + 2, s + 2, 0, 0, c),
+                           E("commbody", s + 3, s + 3, 0, 0, c), E("commbody", s + 4, s + 4, 0, 0, c) >>
 
 Init == /\ text = << L("typedecl", 0, 0, 1) >>
         /\ ents = <<>> /\ funcs = <<>> /\ nh = 0 /\ ns = 0 /\ tail = 0 /\ pc = "funcs"
+        /\ relbase \in RelBases
 
 \* a function item: gap, header, one body statement, closing brace
 PlaceFunc(fk, g, bk) ==
@@ -113,14 +157,14 @@ PlaceFunc(fk, g, bk) ==
         /\ ents' = ents \o StmtEnts(bk, hdr + 1, 0, h, fk)
         /\ funcs' = Append(funcs, [kind |-> fk, decl |-> hdr, ndoc |-> NDoc(g)])
         /\ nh' = IF bk = "fwd" THEN nh + 1 ELSE nh
-  /\ UNCHANGED <<ns, tail, pc>>
+  /\ UNCHANGED <<ns, tail, relbase, pc>>
 
 \* the case function's header
 StartCase(g) ==
   /\ pc = "funcs"
   /\ text' = text \o GapLines(g) \o << L("casehdr", 0, 0, Line + Len(g)) >>
   /\ pc' = "stmts"
-  /\ UNCHANGED <<ents, funcs, nh, ns, tail>>
+  /\ UNCHANGED <<ents, funcs, nh, ns, tail, relbase>>
 
 PlaceStmt(k, g) ==
   /\ pc = "stmts" /\ ns < MaxStmts
@@ -130,7 +174,7 @@ PlaceStmt(k, g) ==
         /\ ents' = ents \o StmtEnts(k, s, NDoc(g), h, "case")
         /\ nh' = IF k = "fwd" THEN nh + 1 ELSE nh
   /\ ns' = ns + 1
-  /\ UNCHANGED <<funcs, tail, pc>>
+  /\ UNCHANGED <<funcs, tail, relbase, pc>>
 
 \* calls of the function items, closing brace, then the forward-declared helpers
 EndCase ==
@@ -143,7 +187,7 @@ EndCase ==
      IN /\ text' = body \o helpers
         /\ tail' = t0
   /\ pc' = "done"
-  /\ UNCHANGED <<ents, funcs, nh, ns>>
+  /\ UNCHANGED <<ents, funcs, nh, ns, relbase>>
 
 Next == \/ \E fk \in FuncKinds, g \in Gaps, bk \in BodyKinds : PlaceFunc(fk, g, bk)
         \/ \E g \in CaseGaps : StartCase(g)
@@ -183,7 +227,8 @@ DocAdjacent == /\ \A id \in 1..Len(ents) : \A d \in 1..ents[id].ndoc : text[ents
                /\ \A f \in 1..Len(funcs) : /\ \A d \in 1..funcs[f].ndoc : text[funcs[f].decl - d].k = "comment"
                                            /\ text[funcs[f].decl].k \in {"funchdr", "methhdr"}
 \* braces balance in the finished file
-Openers == {"funchdr", "methhdr", "casehdr", "ifhdr", "forhdr", "swhdr", "lamhdr", "flithdr", "laterhdr"}
+Openers == {"funchdr", "methhdr", "casehdr", "ifhdr", "forhdr", "swhdr", "lamhdr", "flithdr", "laterhdr",
+            "swbarehdr", "selhdr"}
 Closers == {"close", "lamend"}
 Balanced == pc = "done" =>
    Cardinality({ j \in 1..Len(text) : text[j].k \in Openers }) = Cardinality({ j \in 1..Len(text) : text[j].k \in Closers })
@@ -195,12 +240,20 @@ HelpersDeclared == pc = "done" => \A id \in 1..Len(ents) : ents[id].kind = "fwd"
    /\ text[tail + 3 * (ents[id].h - 1)].k = "laterhdr" /\ text[tail + 3 * (ents[id].h - 1)].ref = ents[id].h
    /\ LazyClobber(ents[id]) => text[CodeLine(ents[id])].k = "retx"
 
+\* file names: joining the base with the relative directory leads back to the file's directory, and a
+\* base that is not a path prefix of the file's directory is left through ".." (never by cutting the string)
+RelCorrect == \A rb \in RelBases \ {"unset"} :
+   /\ Clean(BaseDir(rb), Rel(BaseDir(rb), FileDir)) = FileDir
+   /\ (CommonLen(BaseDir(rb), FileDir, 0) < Len(BaseDir(rb))) => Rel(BaseDir(rb), FileDir)[1] = ".."
+   /\ rb = "same" => Rel(BaseDir(rb), FileDir) = <<>>
+
 Export == pc = "done" =>
-   Emit([fkind |-> FileKind,
+   Emit([fkind |-> FileKind, relbase |-> relbase, dir |-> ExpDir(relbase), filedir |-> FileDir,
+         basedir |-> IF relbase = "unset" THEN <<>> ELSE BaseDir(relbase),
          text  |-> [j \in 1..Len(text) |-> [k |-> text[j].k, id |-> text[j].id, ref |-> text[j].ref]],
          ents  |-> [id \in 1..Len(ents) |-> [kind |-> ents[id].kind, line |-> ents[id].line, ctx |-> ents[id].ctx,
                                              code |-> CodeLine(ents[id]),
-                                             ndoc |-> ents[id].ndoc,
+                                             ndoc |-> ents[id].ndoc, opt |-> ents[id].opt,
                                              dev  |-> IF LazyClobber(ents[id]) THEN "LazyClobber" ELSE "none"]],
          funcs |-> funcs])
 =============================================================================
